@@ -14,6 +14,9 @@ RSPIRV_ENUM_FILES = [
     ("rspirv/dr/loader.rs", ["loader", "dr::loader", "dr"]),
     ("rspirv/dr/autogen_operand.rs", ["constructs", "dr::constructs", "dr"]),
     ("rspirv/dr/build/mod.rs", ["build", "dr::build"]),
+    ("rspirv/sr/autogen_types.rs", ["types", "sr::types", "sr"]),
+    ("rspirv/sr/constants.rs", ["constants", "sr::constants", "sr"]),
+    ("rspirv/lift/mod.rs", ["lift"]),
 ]
 
 
